@@ -69,6 +69,7 @@ const (
 	oAccept
 	oNil
 	oReject
+	oRejectWithPrincipal // the scheme rejects the credential (error) but hands back a principal as well
 )
 
 type scn struct {
@@ -100,7 +101,7 @@ func (s *scn) String() string {
 		if !s.registered[n] {
 			reg = "(unregistered)"
 		}
-		outs = append(outs, fmt.Sprintf("%s%s=%s(granted %v)", n, reg, []string{"n/a", "accept", "accept-nil", "reject"}[s.outcome[n]], s.granted[n]))
+		outs = append(outs, fmt.Sprintf("%s%s=%s(granted %v)", n, reg, []string{"n/a", "accept", "accept-nil", "reject", "reject+principal"}[s.outcome[n]], s.granted[n]))
 	}
 	return fmt.Sprintf("security=%s global=%v outcomes=[%s] authorizer=%d broken=%d flow=%d", strings.Join(alts, " OR "), s.global, strings.Join(outs, " "), s.authz, s.broken, s.flow)
 }
@@ -111,7 +112,7 @@ func generate(t *kernel.Tape) *scn {
 	s.schemes = []string{"A", "B", "C", "D"}[:n]
 	for _, name := range s.schemes {
 		s.registered[name] = !t.Bool(8, "unregistered")
-		s.outcome[name] = t.Weighted("outcome", 3, 4, 2, 3)
+		s.outcome[name] = t.Weighted("outcome", 3, 4, 2, 3, 1)
 		s.errKind[name] = t.Choose(4, "errkind")
 		s.granted[name] = [][]string{{"read", "write"}, {"read"}, {"write"}, nil}[t.Weighted("granted", 3, 1, 1, 1)]
 	}
@@ -229,6 +230,8 @@ func (prop) Run(t *testing.T, tape *kernel.Tape, sc kernel.Scenario) *kernel.Res
 				return simapi.AuthOutcome{Applies: true}
 			case oReject:
 				return simapi.AuthOutcome{Applies: true, Err: rejectErr(s.errKind[n], n)}
+			case oRejectWithPrincipal:
+				return simapi.AuthOutcome{Applies: true, Principal: "locked-" + n, Err: rejectErr(s.errKind[n], n)}
 			}
 			return simapi.AuthOutcome{}
 		}})
@@ -330,7 +333,7 @@ func markFaults(env *kernel.Env, s *scn) {
 			env.Fault("not-applicable")
 		case oNil:
 			env.Fault("nil-principal")
-		case oReject:
+		case oReject, oRejectWithPrincipal:
 			env.Fault("reject")
 		}
 	}
@@ -481,7 +484,7 @@ func judge(env *kernel.Env, s *scn, o observed, slot *simapi.Obs, order string) 
 	var errCodes []int
 	for k, n := range slot.AuthCalls {
 		switch s.outcome[n] {
-		case oReject:
+		case oReject, oRejectWithPrincipal:
 			errCodes = append(errCodes, rejectCode(s.errKind[n]))
 		case oAccept:
 			// a consultation that asked for a scope the credential is not good for was rejected with 403
@@ -516,7 +519,7 @@ func judge(env *kernel.Env, s *scn, o observed, slot *simapi.Obs, order string) 
 	anyReject := false
 	for _, a := range s.alts {
 		for n, required := range a {
-			if s.registered[n] && s.outcome[n] == oReject {
+			if s.registered[n] && (s.outcome[n] == oReject || s.outcome[n] == oRejectWithPrincipal) {
 				anyReject = true
 			}
 			if s.registered[n] && s.outcome[n] == oAccept {
